@@ -575,6 +575,30 @@ def run(F, rep, tier):
         rep.ok('R3.9', 'set_index precedence arm', 'level written %s; associativity untouched' % ('through &mut f64' if stores else 'by rebuilding with the old Assoc'))
     else:
         rep.error('R3.9', 'set_index: the write of a precedence level was not found')
+    # ---------------- R3.10
+    rep.rule('R3.10', 'a binary application inside evaluate is evaluated left to right: for every run2 call whose receiver and two operands '
+             'are each the result of an evaluate(..) call (the single-operator fast path of Expr::Chain), the left operand\'s evaluation '
+             'dominates the operator\'s, which dominates the right operand\'s')
+    n310 = 0
+    for eb10 in F.all_bodies():
+        if not any(c.target == 'eval::evaluate' for c in eb10.calls):
+            continue
+
+        def _ev(op):
+            return {r_[2] for r_ in eb10.roots(op, through_calls=('branch', 'deref', 'as_ref')) if r_[0] == 'call' and r_[1] == 'eval::evaluate'}
+        for c in eb10.calls:
+            if c.target.rsplit('::', 1)[-1] != 'run2' or len(c.args) < 4:
+                continue
+            r0, r2, r3 = _ev(c.args[0]), _ev(c.args[2]), _ev(c.args[3])
+            if not (r0 and r2 and r3):
+                continue
+            n310 += 1
+            if all(eb10.dominates(x, y) for x in r2 for y in r0) and all(eb10.dominates(y, z) for y in r0 for z in r3):
+                rep.ok('R3.10', '%s: run2 of three evaluated parts' % eb10.path, 'left operand, operator, right operand')
+            else:
+                rep.viol('R3.10', 'run2|evaluation-order', 'a binary application evaluates its operator expression (or its right operand) before the left operand: side effects of the left operand on the operator variable are applied too late (`f := +; (f = -; 10) f 3`)', c.loc())
+    rep.floor('R3.10', 'run2 calls over three evaluated parts', n310, 1)
+
     rep.undecided += ['the grouping theorem (stack invariant argument) is on paper only', 'n-ary behaviour of each chainable builtin']
     return META
 
